@@ -25,6 +25,7 @@ class Raises(Exception):
 class FiniteEval:
     def __init__(self, atom=None, counters=(), lists=()):
         self.atom = atom or (lambda n, env: NOATOM)
+        self.cmp_hook = None
         self.counters = set(counters)
         self.lists = set(lists)
         self.actions = []
@@ -90,13 +91,25 @@ class FiniteEval:
             if isinstance(base, tuple) and base and base[0] == 'tok' and isinstance(n.slice, ast.Constant) and n.slice.value in (0, -1):
                 s = base[1] + '9' + base[2]
                 return s[n.slice.value]
+            if isinstance(base, tuple) and base and base[0] == 'array':
+                ix = self.ev(n.slice, env)
+                return ('elem', base[1], base[2], ix)
             raise Unknown('subscript ' + ast.unparse(n))
+        if isinstance(n, ast.Attribute):
+            base = self.ev(n.value, env)
+            if base is None:
+                raise Raises("AttributeError: 'NoneType' object has no attribute %r" % n.attr)
+            if isinstance(base, tuple) and base and base[0] == 'obj':
+                return ('attrof', base[1], n.attr)
+            raise Unknown('attribute ' + ast.unparse(n))
         if isinstance(n, ast.Tuple):
             return tuple(self.ev(e, env) for e in n.elts)
         raise Unknown('expression ' + ast.unparse(n)[:60])
 
     def truth(self, v):
         if isinstance(v, tuple):
+            if v and v[0] == 'obj':
+                return True
             if v and v[0] in ('tok', 'num', 'cnt'):
                 if v[0] == 'tok':
                     return True
@@ -135,6 +148,10 @@ class FiniteEval:
         raise Unknown('binary operation on %r, %r' % (a, b))
 
     def compare(self, op, a, b):
+        if self.cmp_hook is not None:
+            r = self.cmp_hook(op, a, b)
+            if r is not NOATOM:
+                return r
         if isinstance(op, (ast.In, ast.NotIn)):
             if isinstance(a, str) and isinstance(b, tuple) and b and b[0] == 'tok':
                 r = (a in b[1] + b[2]) if not a.isdigit() else None
@@ -146,6 +163,8 @@ class FiniteEval:
                 return r if isinstance(op, ast.In) else not r
             raise Unknown('membership test on %r, %r' % (a, b))
         if isinstance(op, (ast.Eq, ast.NotEq, ast.Is, ast.IsNot)):
+            if (a is None and isinstance(b, tuple) and b and b[0] == 'obj') or (b is None and isinstance(a, tuple) and a and a[0] == 'obj'):
+                return isinstance(op, (ast.NotEq, ast.IsNot))
             if isinstance(a, tuple) or isinstance(b, tuple):
                 if a == b and isinstance(a, tuple) and a and a[0] == 'cnt':
                     r = True
